@@ -88,6 +88,10 @@ func (r AReq) form() string {
 			return "hash-only(" + hashClass(r.Hash) + ")"
 		case r.Hash == "h:"+r.Text:
 			return "text+correct-hash"
+		case r.Hash == "u:"+r.Text:
+			return "text+own-hash-in-upper-case-hex"
+		case strings.HasPrefix(r.Hash, "h:") && twinBase(r.Text) == twinBase(r.Hash[2:]):
+			return "text+hash-of-its-near-twin"
 		default:
 			return "text+wrong-hash(" + hashClass(r.Hash) + ")"
 		}
@@ -99,7 +103,51 @@ func hashClass(h string) string {
 	if strings.HasPrefix(h, "h:") {
 		return "hash-of-a-text"
 	}
+	if strings.HasPrefix(h, "u:") {
+		return "upper-case-hex-of-a-text-hash"
+	}
 	return h
+}
+
+// A text named <base>x is a NEAR-TWIN of <base>: a text that a lossy
+// normalisation would identify with it, but whose SHA-256 differs.
+func isTwin(t string) bool   { return len(t) > 1 && strings.HasSuffix(t, "x") }
+func twinBase(t string) string { return strings.TrimSuffix(t, "x") }
+
+// twinKinds: how the twin differs from its base. f is the root field both
+// select, g a second field that only the "comment-cr" twin selects (a lone CR
+// is a GraphQL line terminator and ends the comment). All texts are valid.
+var twinKinds = []string{"cr-insert", "crlf", "comment-cr", "trailing-newline", "bom", "leading-space", "trailing-space", "tab-for-space", "unicode-escape", "comma"}
+
+func twinPair(kind, f, g string) (base, twin, twinSig string) {
+	switch kind {
+	case "cr-insert":
+		return "{ " + f + " }", "{\r " + f + " }", f
+	case "crlf":
+		return "query {\n  " + f + "\n}\n", "query {\r\n  " + f + "\r\n}\r\n", f
+	case "comment-cr":
+		return "query {\n  " + f + "\n  # " + g + "\n}", "query {\n  " + f + "\n  #\r " + g + "\n}", sigOf(f, g)
+	case "trailing-newline":
+		return "{ " + f + " }", "{ " + f + " }\n", f
+	case "bom":
+		return "{ " + f + " }", "\ufeff{ " + f + " }", f
+	case "leading-space":
+		return "{ " + f + " }", " { " + f + " }", f
+	case "trailing-space":
+		return "{ " + f + " }", "{ " + f + " } ", f
+	case "tab-for-space":
+		return "{ " + f + " }", "{\t" + f + " }", f
+	case "unicode-escape":
+		return "{ " + f + `(x: "caf\u00e9") }`, "{ " + f + "(x: \"caf\u00e9\") }", f
+	case "comma":
+		return "{ " + f + " }", "{ " + f + ", }", f
+	}
+	panic("unknown twin kind " + kind)
+}
+
+func sigOf(fs ...string) string {
+	sort.Strings(fs)
+	return strings.Join(fs, ",")
 }
 
 // coarse maps the specification's outcome class to what the harness can tell
@@ -125,6 +173,8 @@ type conc struct {
 	rnd    *rand.Rand
 	Text   map[string]string // abstract text -> concrete
 	Field  map[string]string // abstract valid text -> root field it selects
+	Sig    map[string]string // abstract valid text -> root fields its operation selects (sorted, comma separated)
+	Twin   string            // how the near-twins of this history differ from their bases
 	Hash   map[string]string // abstract hash -> concrete
 	rText  map[string]string
 	rHash  map[string]string
@@ -148,8 +198,18 @@ var badVariants = [][]string{
 }
 
 func newConc(rnd *rand.Rand, texts, valid []string, wrong []string, method string) *conc {
-	c := &conc{rnd: rnd, Text: map[string]string{}, Field: map[string]string{}, Hash: map[string]string{},
-		rText: map[string]string{}, rHash: map[string]string{}, Method: method}
+	return newConcTwin(rnd, texts, valid, wrong, method, twinKinds[rnd.Intn(len(twinKinds))])
+}
+
+func newConcTwin(rnd *rand.Rand, texts, valid []string, wrong []string, method, twinKind string) *conc {
+	c := &conc{rnd: rnd, Text: map[string]string{}, Field: map[string]string{}, Sig: map[string]string{}, Hash: map[string]string{},
+		rText: map[string]string{}, rHash: map[string]string{}, Method: method, Twin: twinKind}
+	hasTwin := map[string]bool{}
+	for _, t := range texts {
+		if isTwin(t) {
+			hasTwin[twinBase(t)] = true
+		}
+	}
 	isValid := map[string]bool{}
 	for _, v := range valid {
 		isValid[v] = true
@@ -158,10 +218,20 @@ func newConc(rnd *rand.Rand, texts, valid []string, wrong []string, method strin
 	for _, t := range texts {
 		var s string
 		if isValid[t] {
-			f := fieldOf[t]
+			f := fieldOf[twinBase(t)]
 			vs := validVariants(f)
 			s = vs[rnd.Intn(len(vs))]
-			c.Field[t] = f
+			c.Field[t], c.Sig[t] = f, f
+			if hasTwin[t] || isTwin(t) {
+				// a base / twin pair: both fixed by the twin kind ("f" is the field only
+				// a comment-cr twin selects in addition)
+				b, tw, twSig := twinPair(twinKind, f, "f")
+				if isTwin(t) {
+					s, c.Sig[t] = tw, twSig
+				} else {
+					s = b
+				}
+			}
 		} else {
 			for {
 				fam := badVariants[nb%len(badVariants)]
@@ -181,6 +251,9 @@ func newConc(rnd *rand.Rand, texts, valid []string, wrong []string, method strin
 	for _, w := range wrong {
 		var s string
 		switch {
+		case strings.HasPrefix(w, "u:"):
+			// the upper-case hex spelling of a text's digest
+			s = strings.ToUpper(c.Hash["h:"+w[2:]])
 		case w == "x:empty":
 			s = ""
 		default:
@@ -478,10 +551,29 @@ func (c *conc) abstract(kind string, capacity int, rp *reply, o *obs, pre, snap 
 		// resolves exactly the root fields of the parsed operation).
 		var d map[string]string
 		s.Out.Exec = "?exec:" + string(g.Data)
-		if json.Unmarshal(g.Data, &d) == nil && len(d) == 1 {
-			for t, f := range c.Field {
-				if d[f] == "v-"+f {
-					s.Out.Exec = t
+		if json.Unmarshal(g.Data, &d) == nil && len(d) >= 1 {
+			// the operation executed, identified by the root fields it resolved. Texts
+			// that select the same fields (a text and its purely textual near-twin) are
+			// the same operation: the one handed to the executor is named if it is among them.
+			var fs []string
+			ok := true
+			for k, v := range d {
+				fs = append(fs, k)
+				ok = ok && v == "v-"+k
+			}
+			if ok {
+				sig := sigOf(fs...)
+				var cands []string
+				for t, ts := range c.Sig {
+					if ts == sig {
+						cands = append(cands, t)
+					}
+				}
+				sort.Strings(cands)
+				for i, t := range cands {
+					if i == 0 || t == s.Out.Submit {
+						s.Out.Exec = t
+					}
 				}
 			}
 		}
